@@ -102,18 +102,22 @@ for D in (1, 2, 3, 4):
 # element-for-element assignment once the target has the layout of the source extents -- which is the postcondition proved here.
 def is_canonical(a, D, ns, fs):
     return ' && '.join(canonical(a, D, ns, fs))
-for D in (1, 2, 3):
+for D, SRC in [(d_, t_) for t_ in ('int', 'double') for d_ in (1, 2, 3)]:
+    TAG = 'conv' if SRC == 'int' else 'copy'; SP = 'int const' if SRC == 'int' else r'double( const)?'
     na = ['g_n%d' % k for k in range(D)]; fa = ['g_f%d' % k for k in range(D)]
     nb = ['g_m%d' % k for k in range(D)]; fb = ['g_e%d' % k for k in range(D)]
     G = ghosts_fn(D) + ghosts_fn(D, f='g_e', n='g_m')
-    CPN = Stub(r'double\* std::copy_n<int const\*, long, double\*>\(.*', record=[('g_c_src', 0, None, 'ptr'), ('g_c_n', 1, None), ('g_c_dst', 2, None, 'ptr')], ret='g_c_ret', count='g_c_calls')
-    UCI = Stub(r'double\* std::uninitialized_copy_n<int const\*, long, double\*>\(.*', record=[('g_u_src', 0, None, 'ptr'), ('g_u_n', 1, None), ('g_u_dst', 2, None, 'ptr')], ret='g_u_ret', count='g_u_calls')
+    CPN = Stub(r'double\* std::copy_n<' + SP + r'\*, (unsigned )?long, double\*>\(.*', record=[('g_c_src', 0, None, 'ptr'), ('g_c_n', 1, None), ('g_c_dst', 2, None, 'ptr')], ret='g_c_ret', count='g_c_calls')
+    UCI = Stub(r'double\* std::uninitialized_copy_n<' + SP + r'\*, (unsigned )?long, double\*>\(.*', record=[('g_u_src', 0, None, 'ptr'), ('g_u_n', 1, None), ('g_u_dst', 2, None, 'ptr')], ret='g_u_ret', count='g_u_calls')
     Na, Nb = prod(na), prod(nb)
     same_ext = ' && '.join('%s == %s && (%s == 0 || %s == %s)' % (na[k], nb[k], na[k], fa[k], fb[k]) for k in range(D))
+    eff = lambda ns, fs, k: ('(%s == 0 ? 0 : %s)' % (prod(ns[k:]), fs[k]), '(%s == 0 ? 0 : %s + %s)' % (prod(ns[k:]), fs[k], ns[k]))      # extension as layout_t::extension() reports it
+    lib_same_ext = ' && '.join('%s == %s && %s == %s' % (eff(na, fa, k)[0], eff(nb, fb, k)[0], eff(na, fa, k)[1], eff(nb, fb, k)[1]) for k in range(D))
+    REUSE = ('%s == %s' % (Na, Nb)) if TAG == 'conv' else lib_same_ext
     bounds = lambda ns, fs: ' && '.join('0 <= %s && %s < SMALL && INR(%s)' % (n, n, f) for n, f in zip(ns, fs))
-    Check('O%d_conv_assign' % D, ['C04'], 'own', fn='w_O%d_conv_assign' % D, params=['self', 'other'],
-          wrapper=('void', 'AR<%d>* self, AI<%d> const* other' % (D, D), '*self = *other;'),
-          cxx={'self': ARR(D), 'other': ARR(D, 'int')}, ghosts=G, stubs=[NEW, DEL, CPN, UCI], mode='uf',
+    Check('O%d_%s_assign' % (D, TAG), ['C04', 'C19'], 'own', fn='w_O%d_%s_assign' % (D, TAG), params=['self', 'other'],
+          wrapper=('void', 'AR<%d>* self, %s<%d> const* other' % (D, 'AI' if SRC == 'int' else 'AR', D), '*self = *other;'),
+          cxx={'self': ARR(D), 'other': ARR(D, SRC)}, ghosts=G, stubs=[NEW, DEL, CPN, UCI], mode='uf',
           requires=[bounds(na, fa), bounds(nb, fb), is_canonical('self', D, na, fa), is_canonical('other', D, nb, fb), 'INOFF(%s) && INOFF(%s)' % (Na, Nb),
                     'g_block != 0 && self->base_ != 0 && other->base_ != 0',
                     '(void*)self != (void*)other'],
@@ -124,9 +128,9 @@ for D in (1, 2, 3):
                     'IMPLIES(EXC == 0, g_c_calls + g_u_calls == 1)'),
                    ('the flat copy reads all num_elements() elements of the source from its first element and writes them from the first element of the target',
                     'IMPLIES(EXC == 0 && g_c_calls + g_u_calls == 1, g_c_calls == 1 ? (g_c_src == other->base_ && g_c_n == %s && g_c_dst == self->base_) : (g_u_src == other->base_ && g_u_n == %s && g_u_dst == self->base_))' % (Nb, Nb)),
-                   ('same element count: the storage is reused (no allocation, no deallocation, same base)', 'IMPLIES(EXC == 0 && %s == %s, g_news == 0 && g_deletes == 0 && self->base_ == OLD(self->base_))' % (Na, Nb)),
-                   ('different element count: the old storage is released exactly once (if there was any) and exactly the needed storage is obtained',
-                    'IMPLIES(EXC == 0 && %s != %s, %s && (%s == 0 ? g_deletes == 0 : (g_deletes == 1 && g_deleted == (void*)OLD(self->base_))))' % (Na, Nb, storage('self', Nb), Na))],
+                   ('%s: the storage is reused (no allocation, no deallocation, same base)' % ('same element count' if TAG == 'conv' else 'same extensions'), 'IMPLIES(EXC == 0 && %s, g_news == 0 && g_deletes == 0 && self->base_ == OLD(self->base_))' % REUSE),
+                   ('otherwise: the old storage is released exactly once (if there was any) and exactly the needed storage is obtained',
+                    'IMPLIES(EXC == 0 && !(%s), %s && (%s == 0 ? g_deletes == 0 : (g_deletes == 1 && g_deleted == (void*)OLD(self->base_))))' % (REUSE, storage('self', Nb), Na))],
           covers=[same_ext + ' && g_n0 > 1', '%s == %s && !(%s) && g_n0 > 0' % (Na, Nb, same_ext), '%s != %s && g_n0 > 0 && g_m0 > 0' % (Na, Nb), '%s == 0 && g_m0 > 0' % Na, '%s == 0 && g_n0 > 0' % Nb],
           assigns=['*self'], objbits=12, timeout=1200, unwind=4, cbmc_flags=['--no-pointer-check'], solvers=('cvc5', 'cadical'))
 
